@@ -553,7 +553,7 @@ def lint_directory_bounded(ctx):
             # the parallel entry point honours the recursion flag like the sequential one
             for rec in (True, False):
                 clear_ignore_parser_cache()
-                vs = Orchestrator(project_root=root, config={}).lint_directory_parallel(root, recursive=rec, max_workers=2)
+                vs = Orchestrator(project_root=root, config={}).lint_directory_parallel(root, recursive=rec, max_workers=64)  # (checker workers are daemonic: stay on the small-input sequential fallback of lint_files_parallel)
                 got = {os.path.relpath(v.file_path, str(root)) for v in vs if v.rule_id.startswith("magic-numbers")}
                 exp = want if rec else want_flat
                 cases += 1
